@@ -47,6 +47,11 @@ func NewSession(info Info, sessionID []byte, pl *pool.Pool, auxInfo ...hash.Writ
 	}
 
 	// verify our ID is present
+	// the empty ID cannot be hashed into the session ID and means "everyone" in a message header
+	if partyIDs.Contains("") {
+		return nil, errors.New("session: partyIDs contains the empty ID")
+	}
+
 	if !partyIDs.Contains(info.SelfID) {
 		return nil, errors.New("session: selfID not included in partyIDs")
 	}
